@@ -8,7 +8,7 @@ want = set(base["stable_pass"])
 with tempfile.TemporaryDirectory(dir="/var/tmp") as d:
     xml = os.path.join(d, "j.xml")
     cmd = ["/venv/bin/python", "-m", "pytest", "-ra", "-q", "-p", "no:cacheprovider", "--timeout=900", "--continue-on-collection-errors", f"--junitxml={xml}", "-n", jobs]
-    env = dict(os.environ); env.pop("PFHEDGE_VERIF", None)
+    env = dict(os.environ, PYTHONPATH=repo); env.pop("PFHEDGE_VERIF", None)
     subprocess.run(cmd, cwd=repo, stdout=subprocess.DEVNULL, stderr=subprocess.DEVNULL, env=env)
     passed = set()
     for tc in ET.parse(xml).getroot().iter("testcase"):
